@@ -143,7 +143,7 @@ argument slice after the call: a regression to the in-place rewriting shows up a
 mismatch and as an `impure:dashCanonical-mutates-arg` oracle failure. -/
 def canonArg (_eps : α) (d : List α) : List α := d
 
-/-! ## dashStart (path.go:1661) -/
+/-! ## dashStart (path.go) -/
 
 /-- the `for d[i0] <= offset` loop; returns `(i0, offset)` at exit. -/
 def dashStartLoop (d : List α) : Nat → Nat → α → Option (Nat × α)
@@ -155,10 +155,19 @@ def dashStartLoop (d : List α) : Nat → Nat → α → Option (Nat × α)
       if di ≤ off then dashStartLoop d fuel (if i0 + 1 = d.length then 0 else i0 + 1) (off - di)
       else some (i0, off)
 
-def dashStart (fuel : Nat) (offset : α) (d : List α) : Option (Nat × α) :=
-  match dashStartLoop d fuel 0 offset with
+/-- the offset the loop starts from (path.go, repaired by 8d5b47c): a negative offset is moved to
+the same position within the first period with `math.Mod` (`fmod`; exact; result has the sign of its
+first argument), plus one period when the remainder is negative. -/
+def reducedOffset (fmod : α → α → α) (offset : α) (d : List α) : α :=
+  if offset < 0 then
+    (if fmod offset (total d) < 0 then fmod offset (total d) + total d else fmod offset (total d))
+  else offset
+
+/-- `dashStart`; `fmod` is `math.Mod` (exact float remainder in the driver, abstract in the theorems). -/
+def dashStart (fmod : α → α → α) (fuel : Nat) (offset : α) (d : List α) : Option (Nat × α) :=
+  match dashStartLoop d fuel 0 (reducedOffset fmod offset d) with
   | none => none
-  | some (i0, off) => if off < 0 then some (i0, -(total d + off)) else some (i0, -off)
+  | some (i0, off) => some (i0, -off)
 
 /-! ## The per-subpath part of Dash (path.go:1774-1807) -/
 
@@ -194,7 +203,7 @@ def kept (nt i k : Nat) : Bool :=
   (keptMiddle nt i).contains k || (endsInDash i && k == nt)
 
 /-- Arc-length intervals `[a,b]` of one subpath that `Dash` returns, in output order, under the
-assumption that `SplitAt` cuts exactly at the requested arc lengths. `d` is the canonical, doubled
+assumption that `SplitAt` cuts exactly at the requested arc lengths (and so makes every cut). `d` is the canonical, doubled
 pattern, `(i0,pos0)` the result of `dashStart`. For a closed subpath whose last piece is kept, the
 last piece comes first and is joined with piece 0 when that is kept too: the joined piece is
 reported as `(t_last, t_0)` (it runs through the start point). -/
@@ -205,8 +214,11 @@ def subpathIntervals (eps : α) (fuel : Nat) (d : List α) (i0 : Nat) (pos0 : α
     Option (List (α × α)) :=
   match positionsLoop eps d length fuel i0 pos0 [] with
   | none => none
-  | some (t, i) =>
+  | some (t, iEnd) =>
+    -- d3f7b7f: `nt := len(pd)-1` cuts were made by SplitAt and the pattern index of the last piece
+    -- is stepped back by the cuts not made; exact cuts: all `t.length` are made
     let nt := t.length
+    let i := iEnd + t.length - nt
     let mid := (keptMiddle nt i).map (bounds t length)
     if endsInDash i then
       let last := bounds t length nt
@@ -233,7 +245,7 @@ def collect (eps : α) (fuel : Nat) (d : List α) (i0 : Nat) (pos0 : α) :
     | some iv, some more => some (iv.map (fun ab => (k, ab.1, ab.2)) ++ more)
     | _, _ => none
 
-def dash (eps : α) (fuel : Nat) (offset : α) (d : List α) (subs : List (α × Bool)) : DashOut α :=
+def dash (fmod : α → α → α) (eps : α) (fuel : Nat) (offset : α) (d : List α) (subs : List (α × Bool)) : DashOut α :=
   match dashCanonical eps offset d with
   | none => .stuck
   | some (off, dc) =>
@@ -241,7 +253,7 @@ def dash (eps : α) (fuel : Nat) (offset : α) (d : List α) (subs : List (α ×
     else if dc.length = 1 ∧ dc.all (fun x => decide (x ≤ 0 ∧ 0 ≤ x)) then .pieces []
     else
       let dd := doubled dc
-      match dashStart fuel off dd with
+      match dashStart fmod fuel off dd with
       | none => .stuck
       | some (i0, pos0) =>
         match collect eps fuel dd i0 pos0 0 subs with
